@@ -48,6 +48,8 @@ func main() {
 			usage()
 		}
 		c := NewCtx(*stream, def.property, *tier, *seed, *out)
+		activeCtx = c
+		guardOps = *stream != "codec" && *stream != "timeout" // pure functions, millions of ops
 		def.fn(c)
 		c.Close()
 		fmt.Printf("stream=%s ops=%d nontrivial=%d oracle_failures=%d\n", *stream, c.n, c.nontriv, len(c.fails))
